@@ -108,14 +108,16 @@ decreases depth(*path) // OBL:C14.must_skip.the_walk_up_terminates
             r is Skip && !must_skip_spec(path, old(self).base, old(self).to_skip.s@) && !(dir_passes(old(self).filter.files@, path) && related(path, old(self).to_explicitly_watch.s@))
                 ==> final(self).to_skip.s@ == old(self).to_skip.s@.insert(path)
                     && (forall|x: PathS| #[trigger] final(self).to_visit@.contains(x) <==> old(self).to_visit@.contains(x) && !under(x, path)), // OBL:C14.visit_path.ignored_or_unrelated_directory_is_pruned
-            // every listed subdirectory the filter lets through (and that is not skipped) is queued
-            r is Find ==> fs_list(path) is Ok && (forall|i: int| 0 <= i < fs_list(path)->Ok_0.len() && good_child(#[trigger] fs_list(path)->Ok_0[i], old(self).filter.files@)
-                && !must_skip_spec(fs_list(path)->Ok_0[i].p, old(self).base, final(self).to_skip.s@) ==> final(self).to_visit@.contains(fs_list(path)->Ok_0[i].p)), // OBL:C14.visit_path.every_unignored_subdirectory_is_queued
-            // every listed subdirectory the filter ignores is pruned
-            r is Find ==> (forall|i: int| 0 <= i < fs_list(path)->Ok_0.len() && (#[trigger] fs_list(path)->Ok_0[i]).ft is Ok && fs_list(path)->Ok_0[i].ft->Ok_0.dir
-                && !dir_passes(old(self).filter.files@, fs_list(path)->Ok_0[i].p) ==> must_skip_spec(fs_list(path)->Ok_0[i].p, old(self).base, final(self).to_skip.s@)), // OBL:C14.visit_path.ignored_subdirectories_are_pruned
-            // nothing but unignored children of this directory is ever added to the queue
-            forall|x: PathS| #[trigger] final(self).to_visit@.contains(x) ==> old(self).to_visit@.contains(x) || (parent_of(x) == Some(path) && dir_passes(old(self).filter.files@, x)), // OBL:C14.visit_path.only_unignored_children_are_queued
+            // every listed subdirectory that is not beneath a skipped directory is queued; whether the ignore files ignore it is decided when it is
+            // visited, with the ignore files of THIS directory (which may re-include it) loaded by then
+            r is Find ==> fs_list(path) is Ok && (forall|i: int| 0 <= i < fs_list(path)->Ok_0.len() && good_child(#[trigger] fs_list(path)->Ok_0[i])
+                && !must_skip_spec(fs_list(path)->Ok_0[i].p, old(self).base, final(self).to_skip.s@) ==> final(self).to_visit@.contains(fs_list(path)->Ok_0[i].p)), // OBL:C14.visit_path.every_unskipped_subdirectory_is_queued
+            // while a directory is listed none of its readable children is put on the skip list: a child is judged against the ignore files only
+            // when it is visited itself, with this directory's own ignore files loaded (D16)
+            forall|x: PathS| #[trigger] final(self).to_skip.s@.contains(x) ==> old(self).to_skip.s@.contains(x) || x == path
+                || (fs_list(path) is Ok && exists|i: int| 0 <= i < fs_list(path)->Ok_0.len() && #[trigger] fs_list(path)->Ok_0[i].p == x && fs_list(path)->Ok_0[i].ft is Err), // OBL:C14.visit_path.no_readable_child_is_skipped_while_its_parent_is_listed
+            // nothing but children of this directory is ever added to the queue
+            forall|x: PathS| #[trigger] final(self).to_visit@.contains(x) ==> old(self).to_visit@.contains(x) || parent_of(x) == Some(path), // OBL:C14.visit_path.only_children_are_queued
 //@ closure 0
 |p: &PathS| -> (vx_b: bool) ensures vx_b == rel1(path, *p) /* OBL:C14.visit_path.hands_out_only_unskipped_unignored_related_directories */
 //@ closure_ghost 0
@@ -127,9 +129,9 @@ invariant
     self.base == old(self).base, self.filter.files == old(self).filter.files, self.to_explicitly_watch.s == old(self).to_explicitly_watch.s,
     old(self).to_skip.s@.subset_of(self.to_skip.s@), self.errors@.len() >= old(self).errors@.len(),
     forall|i: int| 0 <= i < lst.len() ==> parent_of((#[trigger] lst[i]).p) == Some(d0),
-    inv_queued(lst, dir.pos@, self.filter.files@, self.base, self.to_skip.s@, self.to_visit@), // OBL:C14.visit_path.every_unignored_subdirectory_is_queued
-    inv_pruned(lst, dir.pos@, self.filter.files@, self.base, self.to_skip.s@), // OBL:C14.visit_path.ignored_subdirectories_are_pruned
-    forall|x: PathS| #[trigger] self.to_visit@.contains(x) ==> tv0.contains(x) || (parent_of(x) == Some(d0) && dir_passes(self.filter.files@, x)), // OBL:C14.visit_path.only_unignored_children_are_queued
+    inv_queued(lst, dir.pos@, self.base, self.to_skip.s@, self.to_visit@), // OBL:C14.visit_path.every_unskipped_subdirectory_is_queued
+    forall|x: PathS| #[trigger] self.to_skip.s@.contains(x) ==> old(self).to_skip.s@.contains(x) || (exists|i: int| 0 <= i < dir.pos@ && #[trigger] lst[i].p == x && lst[i].ft is Err), // OBL:C14.visit_path.no_readable_child_is_skipped_while_its_parent_is_listed
+    forall|x: PathS| #[trigger] self.to_visit@.contains(x) ==> tv0.contains(x) || parent_of(x) == Some(d0), // OBL:C14.visit_path.only_children_are_queued
 body_start:
 let ghost sk0 = self.to_skip.s@; let ghost tv1 = self.to_visit@; let ghost n0 = dir.pos@ - 1;
 proof { assert(lst[n0] == entry); }
@@ -142,13 +144,13 @@ proof {
     }
 }
 //@ hint 1 after `if self.must_skip(&path) {`
-proof { lemma_after_nothing(lst, n0, self.filter.files@, self.base, sk0, tv1); } // OBL:C14.visit_path.every_unignored_subdirectory_is_queued
+proof { lemma_after_nothing(lst, n0, self.base, sk0, tv1); } // OBL:C14.visit_path.every_unskipped_subdirectory_is_queued
 //@ hint? 2 after `self.skip(path);`
-proof { lemma_after_skip(lst, n0, d0, self.filter.files@, self.base, sk0, self.to_skip.s@, tv1, self.to_visit@); } // OBL:C14.visit_path.every_unignored_subdirectory_is_queued
+proof { lemma_after_skip(lst, n0, d0, self.base, sk0, self.to_skip.s@, tv1, self.to_visit@); } // OBL:C14.visit_path.every_unskipped_subdirectory_is_queued
 //@ hint? 3 after `self.skip(path);`
-proof { lemma_after_skip(lst, n0, d0, self.filter.files@, self.base, sk0, self.to_skip.s@, tv1, self.to_visit@); } // OBL:C14.visit_path.every_unignored_subdirectory_is_queued
+proof { lemma_after_skip(lst, n0, d0, self.base, sk0, self.to_skip.s@, tv1, self.to_visit@); } // OBL:C14.visit_path.every_unskipped_subdirectory_is_queued
 //@ hint after `self.to_visit.push(path);`
-proof { lemma_after_push(lst, n0, self.filter.files@, self.base, sk0, tv1); lemma_push_contains(tv1, path); } // OBL:C14.visit_path.every_unignored_subdirectory_is_queued
+proof { lemma_after_push(lst, n0, self.base, sk0, tv1); lemma_push_contains(tv1, path); } // OBL:C14.visit_path.every_unskipped_subdirectory_is_queued
 //@ hint 1 after `} else {`
-proof { lemma_after_nothing(lst, n0, self.filter.files@, self.base, sk0, tv1); } // OBL:C14.visit_path.every_unignored_subdirectory_is_queued
+proof { lemma_after_nothing(lst, n0, self.base, sk0, tv1); } // OBL:C14.visit_path.every_unskipped_subdirectory_is_queued
 //@ end
